@@ -145,7 +145,9 @@ PROPS["C18"] = dict(
                "the fill rule applied to it; wn negates under reversal, is additive, translation invariant and is -1/0 "
                "inside/outside the unit triangle (lyon's sign convention); the fan area equals the shoelace sum, negates "
                "under reversal, its sign is the reported winding, and add_rectangle's point orders have the requested "
-               "sign. Tied to the code by exhaustive lattice polygons x all half-integer query points off the outline.",
+               "sign. Tied to the code twice: test_segment (hit_test.rs) and FillRule::is_in are regenerated from the source "
+               "text on every run (tools/rs2coq.py, Gen/Functions.v), proved equal to the model and the spec theorem is "
+               "restated on the generated step; and by exhaustive lattice polygons x all half-integer query points off the outline.",
     level_note="Trusted: Coq kernel; that the crossing number equals the topological number of turns is anchored by lemmas "
                "and checked per run against the angle-sum winding number (not proved in general); curved paths go through "
                "flattening and are validated against a fine flattening away from the outline.",
